@@ -38,6 +38,7 @@ const (
 	clsTiny
 	clsRate   // positive, few decimals: usable as an exchange rate
 	clsBeyond // beyond the float64 range (only when the run enables it)
+	clsOrder  // about 1e8..1e9 with eight or more decimals: the order of a float64 summation shows in the eighth decimal
 	nClasses
 )
 
@@ -112,6 +113,8 @@ func literal(cls int, r *engine.Rand) string {
 		return s
 	case clsRate:
 		return fmt.Sprintf("%d.%s", r.Intn(3), digits(r, 1+r.Intn(6)))
+	case clsOrder:
+		return fmt.Sprintf("%d", 1+r.Intn(9)) + digits(r, 8+r.Intn(2)) + "." + digits(r, 8+r.Intn(3))
 	case clsBeyond:
 		if r.Bool(0.5) {
 			return "-1e400"
@@ -319,6 +322,40 @@ type expectation struct {
 	allowNone bool       // no value is acceptable as well (the property is silent on this case)
 	ambiguous bool
 	shape     string
+	// orderSensitive (probe only): an average whose float64 summation gives another
+	// 8-decimal result in another order of the same answers
+	orderSensitive bool
+}
+
+// floatOrderSensitive reports whether summing the values as float64 in different orders and
+// dividing by their number gives different 8-decimal strings.
+func floatOrderSensitive(xs []*big.Rat) bool {
+	if len(xs) < 3 || len(xs) > 6 {
+		return false
+	}
+	fs := make([]float64, len(xs))
+	for i, x := range xs {
+		fs[i], _ = x.Float64()
+	}
+	seen := map[string]bool{}
+	var rec func(k int)
+	rec = func(k int) {
+		if k == len(fs) {
+			t := 0.0
+			for _, f := range fs {
+				t += f
+			}
+			seen[strconv.FormatFloat(t/float64(len(fs)), 'f', 8, 64)] = true
+			return
+		}
+		for i := k; i < len(fs); i++ {
+			fs[k], fs[i] = fs[i], fs[k]
+			rec(k + 1)
+			fs[k], fs[i] = fs[i], fs[k]
+		}
+	}
+	rec(0)
+	return len(seen) > 1
 }
 
 // expect computes the acceptable aggregates of a set of valid outputs.
@@ -377,7 +414,7 @@ func expect(fn string, path string, outputs []string, threshold int) expectation
 		for _, it := range items {
 			xs = append(xs, it.num)
 		}
-		return expectation{cands: []*big.Rat{aggregate(fn, xs)}, shape: shapeOf(xs)}
+		return expectation{cands: []*big.Rat{aggregate(fn, xs)}, shape: shapeOf(xs), orderSensitive: fn == "avg" && floatOrderSensitive(xs)}
 	}
 	ex := expectation{ambiguous: true, shape: "non-numeric-response"}
 	for _, strAsNum := range []bool{true, false} {
